@@ -274,7 +274,7 @@ def network(rng, size=None, genes=None, want="any", finite=False, allow_forced=T
             if r_["id"].startswith(("EX_", "DM_", "SK_")):
                 continue
             if rng.random() < 0.7:
-                r_["gpr"] = gpr_tree(rng, gids, depth=rng.randint(0, 3), arity=3)
+                r_["gpr"] = gpr_tree(rng, gids, depth=rng.randint(0, 3), arity=rng.choice([2, 3, 4]))
     # de-duplicate ids (prefix renames may collide)
     seen = set()
     for r_ in rxns:
